@@ -209,6 +209,10 @@ def gen_model(rng, d, arith, allow=None):
             ("riverint", 6 if arith == "float" else 0)]
     if arith in ("npfloat", "npfloat32"):
         fams = [f for f in fams if f[0] != "zerosum"]
+    if arith == "npfloat32":
+        # single precision overflows at 3.4e38: the product model's squared losses (and their squares, the variances)
+        # would leave the range for reasons that have nothing to do with the library
+        fams = [f for f in fams if f[0] != "inter"]
     if arith == "exact":
         # the real RiverWrapper emits Python floats (0./1.), so the library averages them in float arithmetic
         fams = [f for f in fams if f[0] != "riverlabel"]
